@@ -2,6 +2,8 @@ import ESV.Decomp.Sem
 import ESV.Decomp.ResolveTotal
 import ESV.Decomp.ResolveStep
 import ESV.Decomp.ResolveNames
+import ESV.Decomp.GraphFinal
+import ESV.Decomp.GraphCounter
 /-
 Front phases of the ExplorerScript decompiler (label resolution and base control-flow graph): what they
 guarantee for ALL routine sets.  Statements only; helper lemmas live in ESV/Decomp/*Lemmas.lean.
@@ -21,6 +23,21 @@ theorem resolve_preserves (rs : List (List MOp)) (h : wfSet rs = true) (r : Reso
     (k : Nat) :
     Equivalent (Machine.lts ⟨flatten rs⟩) r.machine.lts ((⟨flatten rs⟩ : Machine).entry k) (r.machine.entry k) :=
   resolve_preserves' rs h r hr k
+
+/-- **The base graph is the control flow of the routine**: whenever `SsbGraphMinimizer.__init__` builds a graph
+for a routine (no exception), following the graph's edges performs exactly the operations and tests of the
+routine's item list (in isolation: leaving for a label of another routine is a final event), for every
+outcome of every test - for every routine in which neither a jump target nor a guaranteed-jump op
+(JumpCommon) stands directly behind a context op (`ctxGuard`; shown necessary by the real input
+`[…, object(X), JumpCommon(7), Return(-1)]`, on which the builder gives JumpCommon no fall-through edge) and whose
+item names are what the resolver produces (`namesGuard`, which `resolve_names` below discharges for every
+resolver output; shown necessary by ESV.Decomp.opJump_counterexample / ljumpGuaranteed_counterexample /
+ljumpEndFlow_counterexample). -/
+theorem baseGraph_preserves (labels : List Lbl) (opt : Bool) (rid : Nat) (items : List Item) (g : Graph)
+    (hg : baseGraph labels opt rid items = .ok g) (hguard : ctxGuard items = true)
+    (hnames : namesGuard items = true) :
+    Equivalent (RMachine.lts ⟨labels, rid, items⟩) g.lts (0 : Nat) (0 : Nat) :=
+  baseGraph_equivalent labels opt rid items g hg hguard hnames
 
 /-- the resolver's output only contains the item names the graph theorem asks for -/
 theorem resolve_names (rs : List (List MOp)) (r : Resolved) (h : resolve rs = .ok r) :
